@@ -1016,8 +1016,8 @@ func TestC20Stack(t *testing.T) {
 	}
 	// the enumerated work first: it overlaps with TestC20's rapid search, the rapid searches below queue behind it
 	relayBig()
-	ev.Check(t, rec, "discovery", rec.Pick(quickDisc, 1500), genDisc, runDisc)
-	ev.Check(t, rec, "relay", rec.Pick(quickRelay, 10000), genRelay, runRelay)
+	ev.Check(t, rec, "discovery", rec.Pick(quickDisc, 1000), genDisc, runDisc)
+	ev.Check(t, rec, "relay", rec.Pick(quickRelay, 8000), genRelay, runRelay)
 }
 
 const (
